@@ -48,6 +48,7 @@ def corpus():
         # values that the default parse stack rewrites (an @string reference, enclosed values): the lines stay true
         "@string{j = {J}}\n@a{k,\n t = {x},\n journal = j,\n y = 1\n}",
         "\n@a{k, a = j, b = \"q\",\n c = j # j,\n d = j}\n\n@string{j = 5}\n@string{j = 6}\n@a{k, e = j}",
+        "\ufeff@a{k, f = 1}\n", "\ufeff\n\n@comment{c}", "\u200b @a{k}", "\ufeff",
     ]
     return [{"t": t} for t in texts]
 
